@@ -239,6 +239,13 @@ def stateless_run(tier='quick'):
     return _pack('gvc.stateless', [r], t0, samples=[dict(obligation='no static/thread_local/lazy/atomic state outside the parser crate', files_checked=r['checked'])])
 
 
+def shared_run(tier='quick'):
+    from . import analyses as A
+    t0 = time.time()
+    r = A.shared_check()
+    return _pack('gvc.shared', [r], t0, samples=[dict(obligation='no state reachable from two threads: statics outside thread_local!, process-global mutators, manual Send/Sync, unsafe blocks', items_checked=r['checked'])])
+
+
 def pptotal_run(tier='quick'):
     from . import analyses as A
     t0 = time.time()
